@@ -67,7 +67,7 @@ FRESH = ["lib/snmplib/asn1.c", "lib/snmplib/snmp_msg.c", "lib/snmplib/snmp_pdu.c
 # ASan + UBSan without the shift checks: asn_parse_int shifts negative ints left (undefined, but not a memory error)
 # recover mode for ASan: the harness reports the error for the case and continues (see h_adversarial.cc)
 SANFLAGS = hbuild.SAN + ["-fno-sanitize=shift", "-fsanitize-recover=address"]
-IMPL_ENV = {"ASAN_OPTIONS": "detect_leaks=0:halt_on_error=0:abort_on_error=0"}
+IMPL_ENV = {"ASAN_OPTIONS": "detect_leaks=0:halt_on_error=0:abort_on_error=0:suppress_equal_pcs=0"}
 
 
 def impl():
